@@ -298,6 +298,12 @@ fn texts(rng: &mut Rng, cfg: &Cfg) -> Vec<Value> {
     out.push(json!({"json": {"text": "nested", "extra": [{"text": "a", "extra": ["b", {"text": "c"}]}]}}));
     out.push(json!({"json": {"text": "no colour", "color": null}}));
     out.push(json!({"json": {"text": "wrapper-looking", "extra": [{"": "x"}, "y"]}}));
+    // an entry that is null inside a list (left out, as a null field is), whole beside fractional numbers
+    out.push(json!({"json": {"text": "No server. ", "extra": ["Try again later", null]}}));
+    out.push(json!({"json": {"text": "x", "extra": [null]}}));
+    out.push(json!({"json": {"text": "", "extra": [null, {"text": "a"}, null, "b"]}}));
+    out.push(json!({"json": {"translate": "chat.type.text", "with": [3, 0.5]}}));
+    out.push(json!({"json": {"translate": "chat.type.text", "with": [3, 4, 0.75, "x"]}}));
     out.push(json!({"json": {"text": rep('x', cfg.cap(60000))}}));
     out.push(json!({"json": {"text": rep('€', cfg.cap(60000) / 3), "extra": [{"text": rep('é', 300)}]}}));
     for _ in 0..cfg.few(if cfg.thorough { 60 } else { 20 }) {
